@@ -24,6 +24,7 @@ import (
 	"sync"
 
 	"golang.org/x/tools/go/ssa"
+	"golang.org/x/tools/go/ssa/ssautil"
 )
 
 type pwDecision struct {
@@ -253,6 +254,59 @@ func origValue(v ssa.Value) ssa.Value {
 	return v
 }
 
+// syntheticIf stands for the branch of a decision that no If instruction of the program takes (min / max).
+var syntheticIf = &ssa.If{}
+
+var (
+	synthLEQ    sync.Map // call -> *ssa.BinOp
+	synthProtoM sync.Mutex
+	synthProto  *ssa.BinOp
+)
+
+func isIntegerType(t types.Type) bool {
+	b, ok := t.Underlying().(*types.Basic)
+	return ok && b.Info()&types.IsInteger != 0
+}
+
+// syntheticLEQ: a comparison value `a <= b` that stands for the case split of the min / max call c
+// (one per call; made from a copy of some comparison of the program so that it has the type bool).
+func syntheticLEQ(c *ssa.Call) *ssa.BinOp {
+	if v, ok := synthLEQ.Load(c); ok {
+		// each path works on its own copy of the operands' meaning: a fresh value per use
+		proto := v.(*ssa.BinOp)
+		n := *proto
+		return &n
+	}
+	synthProtoM.Lock()
+	defer synthProtoM.Unlock()
+	if synthProto == nil && c.Parent() != nil && c.Parent().Prog != nil {
+		for fn := range ssautil.AllFunctions(c.Parent().Prog) {
+			for _, b := range fn.Blocks {
+				for _, ins := range b.Instrs {
+					if bo, ok := ins.(*ssa.BinOp); ok && isBasicKind(bo.Type(), types.Bool) && (bo.Op == token.LSS || bo.Op == token.LEQ || bo.Op == token.GTR || bo.Op == token.GEQ) {
+						synthProto = bo
+						break
+					}
+				}
+				if synthProto != nil {
+					break
+				}
+			}
+			if synthProto != nil {
+				break
+			}
+		}
+	}
+	if synthProto == nil {
+		return nil
+	}
+	n := *synthProto
+	n.Op = token.LEQ
+	synthLEQ.Store(c, &n)
+	m := n
+	return &m
+}
+
 // copyInstr makes a private copy of ins whose operands are replaced according to sub.
 func copyInstr(ins ssa.Instruction, sub map[ssa.Value]ssa.Value) ssa.Instruction {
 	rv := reflect.ValueOf(ins)
@@ -357,6 +411,8 @@ type pathWalker struct {
 	iterCopies bool // the second iteration of a loop works on private copies of the instructions (loop-carried variables keep their first-iteration meaning)
 	runDefers  bool // run the deferred calls of an activation at its exit (closures and functions the inline policy accepts)
 	noTables   bool // do not resolve lookups in constant tables (used while the tables themselves are built)
+	// splitMinMax: the builtins min and max of two integers are explored as two cases (recorded as a decision on a synthetic a <= b)
+	splitMinMax bool
 	// stopCall: the path ends (end == "stop") at this call, which is recorded as its last event
 	stopCall func(p *pwPath, frameFn *ssa.Function, c *ssa.Call) bool
 }
@@ -732,7 +788,7 @@ func (p *pwPath) order() string {
 	}
 	var sb strings.Builder
 	for _, d := range p.decisions {
-		if d.at != nil {
+		if d.at != nil && d.at != syntheticIf {
 			fmt.Fprintf(&sb, "%08d", int(d.at.Pos()))
 			fmt.Fprintf(&sb, ".%03d", d.at.Block().Index)
 		}
@@ -948,6 +1004,28 @@ func (pw *pathWalker) run(s *pwState) []*pwState {
 			switch x := ins.(type) {
 			case *ssa.Phi, *ssa.DebugRef:
 			case *ssa.Call:
+				if bi, isBuiltin := x.Call.Value.(*ssa.Builtin); isBuiltin && pw.splitMinMax && (bi.Name() == "min" || bi.Name() == "max") && len(x.Call.Args) == 2 && isIntegerType(x.Type()) {
+					// min(a, b) / max(a, b): two cases, decided by a synthetic comparison a <= b
+					if cond := syntheticLEQ(x); cond != nil {
+						a, bb := s.p.resolve(x.Call.Args[0]), s.p.resolve(x.Call.Args[1])
+						cond.X, cond.Y = a, bb
+						pick := func(st *pwState, leq bool) {
+							if leq == (bi.Name() == "min") {
+								st.p.alias[x] = a
+							} else {
+								st.p.alias[x] = bb
+							}
+						}
+						other := s.clone()
+						for i, st := range []*pwState{s, other} {
+							leq := i == 0
+							st.decided[cond] = leq
+							st.p.decisions = append(st.p.decisions, pwDecision{cond: cond, truth: leq, at: syntheticIf})
+							pick(st, leq)
+						}
+						return []*pwState{other, s}
+					}
+				}
 				callee := x.Call.StaticCallee()
 				boundWrapper := false
 				if callee == nil && !x.Call.IsInvoke() {
